@@ -68,6 +68,25 @@ CLAIMED.update({
          "(a) one in-flight sample per admission decision equal to the count at the decision, gauges equal to enforced values, each processed sample emits rtt/in-flight once and a drop increment iff dropped; (b) each sample reaches the backend metric of the right kind under prefix+ID, gauges polled only between Start and Stop by a single poller, Stop returns and stops it",
          "life-cycle oracles are load independent (stamps, goroutine ids); the two 30 s guards only ever yield 'inconclusive' unless a goroutine dump proves the hang; datadog checked at the statsd line level", "4/C20"),
 })
+# compressed-history devices per property (appended to the level text)
+DEEP = {
+ "C01": "up to 5000 tokens held and released in phases against limits up to 5000",
+ "C02": "partition objects removed and attached again with tokens out, judged per object",
+ "C03": "bursts of up to 600 limit changes, re-attached partition objects, removals racing the matching functions",
+ "C04": "sample lists fed up to 30 times over, windows of up to 131071 quiet samples, maxima up to MaxInt64",
+ "C06": "prefix histories fed up to 30 times over, decimal ratios with float-noise products",
+ "C07": "prefix histories fed up to 30 times over, healthy runs continued through probes",
+ "C08": "climbing histories judged after every prefix",
+ "C09": "windows of up to 131072 samples, unbounded maximum window",
+ "C10": "up to 2100 callers that blocked and gave up before the scenario",
+ "C11": "up to 300 hand-offs over a standing backlog, wait-for-ever timeouts",
+ "C12": "limits that grow or are cut under queued callers",
+ "C13": "up to 1500 abandoned waits before the caller arrives, releases without usable capacity",
+ "C14": "call lists gone through up to 400 times on one interceptor, refusal / grant storms",
+ "C15": "the default probe interval judged observationally over thousands of samples, second-scale RTTs 1 ns apart",
+ "C18": "windows of up to 90000 folded samples on top of constructor-built windows of up to 2^20",
+ "C20": "hundreds of samples per backend metric, restart storms of up to 200 Stop/Start pairs",
+}
 PENDING_REASON = "check not built yet in this revision of the harness (planned, see DESIGN.md section 4)"
 
 props = [json.loads(l) for l in open(os.path.join(HERE, "properties.jsonl"))]
@@ -76,6 +95,8 @@ for p in props:
     pid = p["id"]
     if pid in CLAIMED:
         tech, text, note, ref = CLAIMED[pid]
+        if pid in DEEP:
+            text += "; long-lived objects are covered by histories generated in compressed form (phases, repeats and bulk stretches expanded at run time: " + DEEP[pid] + ") and parameters carry their type-boundary values next to ordinary ranges (DESIGN 7, round 11)"
         checks.append({
             "property_id": pid,
             "quick_cmd": "./check %s --tier quick" % pid,
